@@ -120,6 +120,12 @@ def run(ctx):
     # value (shared with C02 / C13 / C14 / C15)
     from .c14 import pool_rule
     pool_rule(ctx)
+    # a struct round-trips whatever order its fields are presented in: the record cursor / side-buffer pairing of the
+    # serializer (shared with C13, which owns it)
+    from . import c13
+    sv_ = c13.fn_by_label(f, c13.SM + 'serialize_record_value')
+    if sv_ is not None:
+        c13.pairing(ctx, sv_)
     from .c07 import resolution_rules
     resolution_rules(ctx)
     # the reading primitives hand over exactly the bytes of the value (shared with C03 / C11)
@@ -498,10 +504,33 @@ def name_pair(ctx):
             for bb, t in tcalls:
                 type_p |= const_ints(tn, t)
             guarded = False
+            ins_blocks = []
             for bb, t in ccalls(helper):
-                if strip_generics(cname(t)).endswith(('OccupiedEntry::insert', 'HashMap::insert')):
+                if strip_generics(cname(t)).endswith(('OccupiedEntry::insert', 'HashMap::insert')) or strip_generics(cname(t)).endswith('::insert') and 'HashMap' in cname(t):
+                    ins_blocks.append(bb)
                     guarded = guarded or any(g['op'] in ('Lt', 'Le', 'Gt', 'Ge') for g in cmp_guards(helper, bb)) or \
                         any(si.get('kind') != 'enum' for d, si, taken in dominating_switches(helper, bb))
+            if not guarded and ins_blocks:
+                # `match map.get(&name) { Some(&(p, _)) if p < precedence => {} Some(_) | None => { map.insert(..) } }`: the
+                # insert sits in a join (reached from `None` and from the failed guard); what matters is that ONE edge of
+                # an ordering comparison leads to no insert at all
+                for d in helper.live_blocks():
+                    tm = helper.term(d)
+                    if tm.get('k') != 'switch' or helper.is_cleanup(d):
+                        continue
+                    si = helper.switch_info(d)
+                    if si.get('kind') == 'enum':
+                        continue
+                    c = switch_condition(helper, si)
+                    while c[0] == 'not':
+                        c = c[1]
+                    ordering = (c[0] == 'cmp' and c[1] in ('Lt', 'Le', 'Gt', 'Ge')) or \
+                               (c[0] == 'call' and c[1].rsplit('::', 1)[-1] in ('lt', 'le', 'gt', 'ge') and 'PartialOrd' in c[1])
+                    if not ordering:
+                        continue
+                    reach = [any(ib in helper.reachable_from(s_) for ib in ins_blocks) for s_ in helper.succs(d)]
+                    if any(reach) and not all(reach):
+                        guarded = True
             ok_names = bool(full_p) and bool(short_p)
             ok_prec = len(full_p) == 1 and len(type_p) == 1 and len(short_p) == 1 and max(full_p) < min(type_p) < min(short_p) and guarded
             det_prec = 'tiered: full names at %s, type names at %s, short names at %s; an entry of lower precedence is kept (comparison before the insert): %s' % (sorted(full_p), sorted(type_p), sorted(short_p), guarded)
@@ -639,7 +668,7 @@ def borrow(ctx):
         ok = len(vb) == 1 and not pv
         if ok:
             o = origin(b, vb[0][1]['args'][1])
-            sp = [c for c in o.calls if call_matches(c, ['slice::<impl [T]>::split_at'])]
+            sp = [c for c in o.calls if call_matches(c, SPLIT_AT)]
             ok = len(sp) == 1 and 'slice' in origin(b, sp[0]['args'][0]).fields and not o.params()
     ctx.ob('BORROW', 'SliceRead::read_slice', ok, short_loc(b.span) if b else None, 'slice reads hand the input sub-slice to visit_borrowed: %s' % ok)
     for vis, meth in (('StringVisitor', 'visit_borrowed_str'), ('BytesVisitor', 'visit_borrowed_bytes')):
